@@ -53,9 +53,9 @@ PROP = dict(
                    env=dict(VERIF_STEPS=12, VERIF_C17_PER_SIM=4))],
         thorough=[job("lnwallet", "^TestVerifC17CoopCloseTx$", ["TestVerifC17CoopCloseTx"], 400, shards=16, timeout=3000,
                       env=dict(VERIF_STEPS=60)),
-                  job("lnwallet/chancloser", "^TestVerifC17Negotiation$", ["TestVerifC17Negotiation"], 800, shards=8, timeout=3000,
+                  job("lnwallet/chancloser", "^TestVerifC17Negotiation$", ["TestVerifC17Negotiation"], 500, shards=8, timeout=3000,
                       env=dict(VERIF_STEPS=30, VERIF_C17_PER_SIM=6)),
-                  job("lnwallet/chancloser", "^TestVerifC17RbfCoop$", ["TestVerifC17RbfCoop"], 800, shards=8, timeout=3000,
+                  job("lnwallet/chancloser", "^TestVerifC17RbfCoop$", ["TestVerifC17RbfCoop"], 500, shards=8, timeout=3000,
                       env=dict(VERIF_STEPS=30, VERIF_C17_PER_SIM=6))],
     ),
     also=["C01"],
